@@ -162,7 +162,7 @@ TSilent ==
                                              \/ (Sock /\ NeedCloser /\ LandTurn(w))      \* before the listener is closed
                                              \/ (Fifo /\ NeedHandler(0) /\ LandTurn(w))  \* before the reader closes its end
                                              \/ AllSilent)
-     \/ \E w \in Writers : KLand(w) /\ (Relaxed \/ (Is("written") /\ (Ev.w = w \/ ~Sock)) \/ SendTurn(Chan(w)) \/ AllSilent)
+     \/ \E w \in Writers : KLand(w) /\ ((Is("written") /\ (Ev.w = w \/ ~Sock)) \/ NeedHandler(Chan(w)) \/ AllSilent)
      \* udp loss: a datagram dropped on arrival (KDrop) cannot be told from one discarded just before it would
      \* have been read; the second form is used here, so TLC need not guess at every "written" event
      \/ DropHead
